@@ -227,7 +227,7 @@ func child(name, outPath string) {
 		count("resolver_points", int64(len(points)))
 		count("directive_points", int64(len(dirPoints)))
 		for _, pt := range points {
-			for _, f := range []univ.Fault{univ.FaultError, univ.FaultPanic} {
+			for _, f := range []univ.Fault{univ.FaultError, univ.FaultPanic, univ.FaultErrList} {
 				p := base
 				p.ForceFault = map[string]univ.Fault{pt: f}
 				cid := diffrun.Case{Probe: name, OpSeed: opSeed, Kind: string(kind), Plan: p, Query: op.Query, OpName: op.OpName, Vars: op.Vars,
@@ -477,6 +477,9 @@ func uniq(in []string) []string {
 }
 
 func faultName(f univ.Fault) string {
+	if f == univ.FaultErrList {
+		return "error-list"
+	}
 	if f == univ.FaultPanic {
 		return "panic"
 	}
